@@ -24,151 +24,8 @@ from pathlib import Path
 
 VERIF = Path(__file__).resolve().parent.parent
 REPO = Path("/repo")
-PROPS_OF_FILE = {
-    "xdeps/tasks.py": ["C01", "C02", "C03", "C05", "C11", "C12", "C13", "C17", "C18", "C20"],
-    "xdeps/sorting.py": ["C01", "C02", "C13", "C20"],
-    "xdeps/refs.py": ["C01", "C03", "C04", "C05", "C06", "C11", "C12", "C13", "C19", "C20"],
-    "xdeps/table.py": ["C07", "C08", "C14"],
-    "xdeps/optimize/optimize.py": ["C09", "C10", "C15", "C16"],
-    "xdeps/optimize/jacobian.py": ["C09", "C10", "C15", "C16"],
-    "xdeps/optimize/matrixutils.py": ["C16"],
-    "xdeps/madxutils.py": ["C19"],
-}
-ALL_PROPS = [f"C{i:02d}" for i in range(1, 21)]
-
-TARGETS = {
-    "xdeps/tasks.py": ["Manager.set_value", "Manager.run_tasks", "Manager.register", "Manager.unregister", "Manager.find_taskids",
-                       "Manager.find_tasks", "Manager.load", "Manager.dump", "Manager.copy_expr_from", "Manager.mk_fun", "Manager.gen_fun",
-                       "Manager.refresh", "Manager.clone", "Manager.cleanup", "ExprTask.__init__", "ExprTask.run", "LinearKnob.run",
-                       "FunctionTask.run", "Manager.freeze_tree", "Manager.unfreeze_tree", "Manager.iter_expr_tasks_owner"],
-    "xdeps/sorting.py": ["toposort", "_dfs"],
-    "xdeps/refs.py": ["BaseRef._mk_value", "BaseRef.__eq__", "BaseRef.__rsub__", "BaseRef.__rtruediv__", "BaseRef.__rpow__", "BaseRef.__round__",
-                      "BaseRef.__divmod__", "MutableRef.__iadd__", "MutableRef.__isub__", "MutableRef._get_dependencies", "MutableRef.__reduce__",
-                      "MutableRef._expr", "MutableRef.__setitem__", "Ref._get_dependencies", "AttrRef._get_value", "AttrRef._set_value",
-                      "ItemRef._get_value", "ItemRef._set_value", "ItemRef.__repr__", "ItemRef.__cinit__", "BinOpExpr._get_dependencies",
-                      "BinOpExpr.__repr__", "BinOpExpr.__cinit__", "UnaryOpExpr._get_dependencies", "SubExpr._get_value", "TruedivExpr._get_value",
-                      "PowExpr._get_value", "BuiltinRef._get_value", "BuiltinRef._get_dependencies", "BuiltinRef.__repr__", "BuiltinRef.__reduce__",
-                      "CallRef.__cinit__", "CallRef._get_value", "CallRef._get_dependencies", "CallRef.__repr__", "RefCount.append", "RefCount.remove"],
-    "xdeps/table.py": ["Table._make_cache", "Table._get_cache", "Table._get_row_cache", "Table._get_row_cache_raise", "Table._split_name_count_offset",
-                       "Table._get_regexp_indices", "Table._get_row_index", "Table._get_row_indices", "Table._select", "Table._select_rows",
-                       "Table._select_cols", "Table.__getitem__", "Table.__setitem__", "Table._concatenate_table", "Table.__add__", "Table.__mul__",
-                       "Table._copy", "Table._append_row", "Table.keys", "Table._invalidate_cache", "Indices.__getitem__", "Mask.__getitem__",
-                       "_RowView._make_view", "_RowView.__getitem__", "_View.get_indices", "_View.__getitem__"],
-    "xdeps/optimize/optimize.py": ["MeritFunctionForMatch.__call__", "MeritFunctionForMatch._x_to_knobs", "MeritFunctionForMatch._knobs_to_x",
-                                   "MeritFunctionForMatch._get_x_limits", "MeritFunctionForMatch.get_jacobian", "MeritFunctionForMatch._clip_to_max_steps",
-                                   "MeritFuctionView.__call__", "MeritFuctionView.get_jacobian", "MeritFuctionView._scaled_to_native",
-                                   "MeritFuctionView._scaled_from_native", "Optimize.step", "Optimize.solve", "Optimize.reload", "Optimize.add_point_to_log",
-                                   "Optimize.enable", "Optimize.disable", "Optimize._clip_to_limits", "Optimize.set_knobs_from_x", "_set_state"],
-    "xdeps/optimize/jacobian.py": ["JacobianSolver.step", "JacobianSolver.eval"],
-    "xdeps/optimize/matrixutils.py": ["SVD.__init__", "SVD.lstsq"],
-    "xdeps/madxutils.py": ["MadxEval.__init__", "MadxEval.call", "MadxEval.getitem", "MadxEval.getattr", "MadxEval.var", "MadxEnv.__init__"],
-}
-BYSTANDERS = {
-    "xdeps/tasks.py": ["Manager.plot_deps", "Manager.plot_tasks", "ExprTask.info", "FunctionTask.__repr__", "dct_merge", "DepEnv.__getattr__",
-                       "Manager.newenv", "Manager.find_deps"],
-    "xdeps/sorting.py": ["toposort2", "depsort", "reverse_graph"],
-    "xdeps/refs.py": ["MutableRef._info", "CompactFormatter.repr_item", "CompactFormatter.repr_attr", "BaseRef._value", "MutableRef._eval"],
-    "xdeps/table.py": ["_to_str", "Table.show", "Table.to_pandas", "Table.from_rows", "Table._get_col_regexp_indices", "_RowView.at", "_RowView.__iter__",
-                       "Table._split_name_count_using_re", "Table.__repr__"],
-    "xdeps/optimize/optimize.py": ["Optimize.target_status", "Optimize.vary_status", "Optimize._print_end", "_bool_array_to_string", "Optimize.plot",
-                                   "TargetSet.__repr__", "Vary.__repr__", "Target.__repr__", "Optimize.run_simplex"],
-    "xdeps/optimize/jacobian.py": ["JacobianSolver.solve"],
-    "xdeps/madxutils.py": ["test", "View.__repr__", "MadxEnv.dump"],
-    "xdeps/utils.py": ["plot_pdot", "AttrDict.__getattr__"],
-}
-
-SWAP_BINOP = {ast.Add: ast.Sub, ast.Sub: ast.Add, ast.Mult: ast.Div, ast.Div: ast.Mult, ast.BitAnd: ast.BitOr, ast.BitOr: ast.BitAnd}
-SWAP_CMP = {ast.Lt: ast.GtE, ast.Gt: ast.LtE, ast.LtE: ast.Gt, ast.GtE: ast.Lt, ast.Eq: ast.NotEq, ast.NotEq: ast.Eq, ast.In: ast.NotIn,
-            ast.NotIn: ast.In, ast.Is: ast.IsNot, ast.IsNot: ast.Is}
-SWAP_NAME = {"appendleft": "append", "argmin": "argmax", "fullmatch": "match", "all": "any", "extend": "append", "remove": "discard",
-             "concatenate": "hstack", "zeros": "ones"}
-
-
-def functions(tree):
-    out = {}
-    for n in tree.body:
-        if isinstance(n, (ast.FunctionDef, ast.AsyncFunctionDef)):
-            out[n.name] = n
-        elif isinstance(n, ast.ClassDef):
-            for m in n.body:
-                if isinstance(m, (ast.FunctionDef, ast.AsyncFunctionDef)):
-                    out.setdefault(f"{n.name}.{m.name}", m)
-    return out
-
-
-def mutants_of(fn):
-    """[(operator, description, mutate(fn_copy))] -- each mutate acts on the k-th node of a fresh copy"""
-    out = []
-    nodes = list(ast.walk(fn))
-    for k, n in enumerate(nodes):
-        if isinstance(n, ast.stmt) and isinstance(n, ast.Expr) and isinstance(n.value, ast.Call):
-            out.append(("del-call", ast.unparse(n)[:60], k, "delstmt"))
-        if isinstance(n, ast.Assign) and any(isinstance(t, (ast.Attribute, ast.Subscript)) for t in n.targets):
-            out.append(("del-store", ast.unparse(n)[:60], k, "delstmt"))
-        if isinstance(n, (ast.If, ast.While)) and not (isinstance(n.test, ast.Constant)):
-            out.append(("negate-test", ast.unparse(n.test)[:60], k, "negate"))
-        if isinstance(n, ast.BinOp) and type(n.op) in SWAP_BINOP:
-            out.append(("swap-binop", ast.unparse(n)[:60], k, "binop"))
-        if isinstance(n, ast.Compare) and len(n.ops) == 1 and type(n.ops[0]) in SWAP_CMP:
-            out.append(("swap-cmp", ast.unparse(n)[:60], k, "cmp"))
-        if isinstance(n, ast.Call) and len(n.args) >= 2 and not any(isinstance(a, ast.Starred) for a in n.args[:2]) \
-                and ast.dump(n.args[0]) != ast.dump(n.args[1]):
-            out.append(("swap-args", ast.unparse(n)[:60], k, "args"))
-        if isinstance(n, ast.Attribute) and n.attr in SWAP_NAME and isinstance(n.ctx, ast.Load):
-            out.append(("swap-callee", ast.unparse(n)[:60], k, "attr"))
-        if isinstance(n, ast.Constant) and n.value in (0, 1) and not isinstance(n.value, bool):
-            out.append(("const-0-1", ast.unparse(n), k, "const"))
-        if isinstance(n, (ast.Break, ast.Continue)):
-            out.append(("drop-" + type(n).__name__.lower(), "", k, "pass"))
-        if isinstance(n, ast.UnaryOp) and isinstance(n.op, ast.Not):
-            out.append(("drop-not", ast.unparse(n)[:60], k, "dropnot"))
-        if isinstance(n, ast.Return) and n.value is not None and isinstance(n.value, ast.Call) and isinstance(n.value.func, ast.Attribute) \
-                and n.value.func.attr == "copy":
-            out.append(("drop-copy", ast.unparse(n)[:60], k, "dropcopy"))
-    return out
-
-
-def apply(fn, k, how):
-    n = list(ast.walk(fn))[k]
-
-    def replace(old, new):
-        for parent in ast.walk(fn):
-            for field, val in ast.iter_fields(parent):
-                if isinstance(val, list):
-                    for i, x in enumerate(val):
-                        if x is old:
-                            val[i] = new
-                            return True
-                elif val is old:
-                    setattr(parent, field, new)
-                    return True
-        return False
-    if how in ("delstmt", "pass"):
-        return replace(n, ast.copy_location(ast.Pass(), n))
-    if how == "negate":
-        n.test = ast.copy_location(ast.UnaryOp(op=ast.Not(), operand=n.test), n.test)
-        return True
-    if how == "binop":
-        n.op = SWAP_BINOP[type(n.op)]()
-        return True
-    if how == "cmp":
-        n.ops = [SWAP_CMP[type(n.ops[0])]()]
-        return True
-    if how == "args":
-        n.args[0], n.args[1] = n.args[1], n.args[0]
-        return True
-    if how == "attr":
-        n.attr = SWAP_NAME[n.attr]
-        return True
-    if how == "const":
-        n.value = 1 - n.value
-        return True
-    if how == "dropnot":
-        return replace(n, n.operand)
-    if how == "dropcopy":
-        n.value = n.value.func.value
-        return True
-    return False
+sys.path.insert(0, str(VERIF))
+from xsa.mutate import (PROPS_OF_FILE, ALL_PROPS, TARGETS, BYSTANDERS, functions, mutants_of, apply)  # noqa: E402
 
 
 def make_scratch():
